@@ -40,3 +40,32 @@ package daemon
 //@   # trunking / RDMA stay on only if the instance type can deliver them
 //@   ensures config.EnableENITrunking ==> old(config.EnableENITrunking) && limit.MemberAdapterLimit > 0
 //@   ensures config.EnableERDMA ==> old(config.EnableERDMA) && erdmaRes(limit) > 0
+
+//@ for C12
+
+//@ # reply lists never hold nil entries
+//@ invariant elem *rpc.NetConf: value != nil
+
+//@ pure func primaryIf(name string) bool = name == "" || name == "eth0"
+//@ pure func distinctConfs(s []*rpc.NetConf) bool = forall i int, j int :: 0 <= i && i < j && j < len(s) ==> s[i] != s[j]
+//@ pure func hasDefault(s []*rpc.NetConf) bool = exists i int :: 0 <= i && i < len(s) && s[i].DefaultRoute
+//@ pure func atMostOneDefault(s []*rpc.NetConf) bool = forall i int, j int :: 0 <= i && i < j && j < len(s) ==> !(s[i].DefaultRoute && s[j].DefaultRoute)
+//@ pure func hasPrimary(s []*rpc.NetConf) bool = exists i int :: 0 <= i && i < len(s) && primaryIf(s[i].IfName)
+
+//@ # Every accepted, non-empty reply names exactly one default-route interface and includes the primary interface.
+//@ func defaultForNetConf
+//@   requires distinctConfs(netConf)
+//@   panics
+//@   modifies rpc.NetConf.DefaultRoute
+//@   ensures result == nil && len(netConf) > 0 ==> hasDefault(netConf) && atMostOneDefault(netConf) && hasPrimary(netConf)
+//@   # rejected only when two defaults were requested or the primary interface is missing
+//@   ensures result != nil ==> !old(atMostOneDefault(netConf)) || !hasPrimary(netConf)
+//@   # a default route is only ever added, never removed or moved
+//@   ensures forall p *rpc.NetConf :: old(p.DefaultRoute) ==> p.DefaultRoute
+//@   ensures old(hasDefault(netConf)) ==> forall p *rpc.NetConf :: p.DefaultRoute == old(p.DefaultRoute)
+//@   loop 1 invariant 0 <= i && i <= len(netConf)
+//@   loop 1 invariant defaultRouteSet <==> (exists k int :: 0 <= k && k < i && netConf[k].DefaultRoute)
+//@   loop 1 invariant forall k int, l int :: 0 <= k && k < l && l < i ==> !(netConf[k].DefaultRoute && netConf[l].DefaultRoute)
+//@   loop 1 invariant defaultIfSet <==> (exists k int :: 0 <= k && k < i && primaryIf(netConf[k].IfName))
+//@   loop 2 invariant 0 <= i && i <= len(netConf)
+//@   loop 2 invariant forall k int :: 0 <= k && k < i ==> !primaryIf(netConf[k].IfName)
